@@ -4,7 +4,7 @@ import re
 
 from ..core import RuleResult, need
 from ..cfg import cfg_of
-from ..astutil import src, call_attr, call_name, is_name, path_of, attr_stores, returns_of
+from ..astutil import src, call_attr, call_name, is_name, path_of, attr_stores, returns_of, compare_parts
 from ..macros import macro_index, MACRO
 from . import macro_rules as mr
 
@@ -526,9 +526,63 @@ def rule_m18(repo):
                 '%s:%d' % (mi.eval.module.rel, mi.eval.node.lineno), nontrivial=bad is not None)
     return res
 
+def numeral_type_rule(repo, rid):
+    """`dest_number()` gives the value of a numeral whatever its type: 2 :: nat, 2 :: int and 2 :: real all give 2.  A macro that
+    decides a goal by comparing such values (m != n, m <= n) and hands the goal back as the theorem makes a statement at the
+    type the goal happens to have, while its expansion is written for one type (the lemmas about natural numbers).  So in
+    a method of a macro where two `dest_number()` values are compared and the answer can be yes, the same path carries a
+    test that pins the type of the numerals (`get_type() == NatType`, `is_nat()` ..).  Without it the evaluation of
+    ~((2::real) = 3) reports the real statement and the expansion proves the one about nat - and the method that offers
+    the step (its search asks the same predicate) writes a line that does not check."""
+    from ..cfg import desugar_bool_returns
+    res = RuleResult(rid, 'a macro that decides a goal from the values of its numerals pins the type of those numerals', floor=2)
+    PINS = ('is_nat', 'is_int', 'is_real')
+    TYPES = ('NatType', 'IntType', 'RealType')
+    for mi in macro_index(repo):
+        for fname, f in sorted(mi.cls.methods.items()):
+            if fname not in ('eval', 'can_eval'):
+                continue
+            cmps = [c for c in ast.walk(f.node) if isinstance(c, ast.Compare) and len(c.comparators) == 1 and
+                    all(isinstance(x, ast.Call) and call_attr(x) == 'dest_number' and isinstance(x.func.value, ast.Name) for x in (c.left, c.comparators[0]))]
+            if not cmps:
+                continue
+            node = desugar_bool_returns(f.node)
+            cfg = cfg_of(node)
+            subjects = {x.func.value.id for c in cmps for x in (c.left, c.comparators[0])}
+            tests = [t for t in cfg.test_nodes() if isinstance(t.ast, ast.Compare) and any(src(t.ast) == src(c) for c in cmps)]
+            yes = [r for r in cfg.return_nodes() if r.ast.value is not None and not (isinstance(r.ast.value, ast.Constant) and r.ast.value.value in (False, None))]
+            if not tests or not yes:
+                continue
+
+            def pin(e, pol):
+                if not pol:
+                    return False
+                if isinstance(e, ast.Call) and call_attr(e) in PINS and src(e.func.value).split('.')[0] in subjects:
+                    return True
+                cp = compare_parts(e)
+                return bool(cp) and cp[0] is ast.Eq and any(src(a).split('.')[0] in subjects and ('get_type()' in src(a) or src(a).endswith('.T')) for a in cp[1:]) and \
+                    any(src(a).split('.')[-1] in TYPES for a in cp[1:])
+            edges = cfg.establishing_edges(pin)
+            # the answers that depend on the comparison
+            bad = []
+            for r in yes:
+                depends = any(cfg.path_avoiding(r, skip_edges={(t.id, 'true')}) is None or cfg.path_avoiding(r, skip_edges={(t.id, 'false')}) is None for t in tests)
+                if depends and (not edges or cfg.path_avoiding(r, skip_edges=edges) is not None):
+                    bad.append(r)
+            res.add('%s :: %s :: numerals-of-one-type' % (mi.key, fname), not bad,
+                    'the comparison of numeral values is made behind a test of their type' if not bad else
+                    'line %d answers from `%s` alone: dest_number() is the same for 2::nat, 2::int and 2::real, so a goal about real or integer numerals is '
+                    'evaluated to itself while the expansion proves the statement about one fixed type' % (bad[0].lineno, src(cmps[0], 60)),
+                    '%s:%d' % (f.module.rel, cmps[0].lineno))
+    return res
+
+
+def rule_m19(repo):
+    return numeral_type_rule(repo, 'C04.M19')
+
 
 def rules(repo):
     m1 = mr.hyps_rule(repo, 'C04.M1', mr.all_macros, floor=95)
     m2 = mr.zip_rule(repo, 'C04.M2', mr.macro_eval_functions(repo), floor=4)
     return [m1, m2, rule_m3(repo), rule_m5(repo), rule_m6(repo), rule_m7(repo), rule_m8(repo), rule_m9(repo), rule_m10(repo), mr.expansion_uses_rule(repo, 'C04.M11', mr.all_macros, floor=25),
-            mr.argument_dependence_rule(repo, 'C04.M12', mr.all_macros, floor=30), rule_m13(repo), rule_m14(repo), rule_m15(repo), rule_m16(repo), rule_m17(repo), rule_m18(repo)]
+            mr.argument_dependence_rule(repo, 'C04.M12', mr.all_macros, floor=30), rule_m13(repo), rule_m14(repo), rule_m15(repo), rule_m16(repo), rule_m17(repo), rule_m18(repo), rule_m19(repo)]
